@@ -124,6 +124,11 @@ func (propC02) Gen(seed uint64, ex map[string]bool) interface{} {
 		renderable = append(renderable, names[len(names)-1])
 	}
 	nt := r.Range(2, 4)
+	maxCalls := 4
+	if ex["tier:thorough"] {
+		nt = r.Range(2, 6)
+		maxCalls = 6
+	}
 	hot := r.P(35) && !ex["conflicting-registration"]
 	late := r.P(40)
 	fsdoc := sc.Cache == "autoreload" && sc.Loader == "fs" && r.P(60)
@@ -132,7 +137,7 @@ func (propC02) Gen(seed uint64, ex map[string]bool) interface{} {
 	}
 	for t := 0; t < nt; t++ {
 		var ops []c02Op
-		n := r.Range(1, 4)
+		n := r.Range(1, maxCalls)
 		for i := 0; i < n; i++ {
 			v := fmt.Sprintf("t%d_%d", t, i)
 			if hot && r.P(65) {
